@@ -4,7 +4,7 @@ PROPS = {
     "C02": {
         "level_text": "Proof of the representation invariant of DesignSpace over its mutators.",
         "level_note": "see evidence",
-        "modules": ["contracts.c02_design_space"],
+        "modules": ["contracts.c02_design_space", "contracts.c02_normalization"],
     },
     "C03": {
         "level_text": "Proof of the budget mechanism on gemseo's side of the algorithm/problem interface.",
@@ -18,13 +18,61 @@ PROPS = {
         "level_note": "Trusted: pyvc VC generator and its dict/list models, z3/cvc5, arrays as opaque contents in a symbolic heap, "
                       "compare_dict_of_arrays contract assumed. Not covered: HDF5Cache, linearize protocol, locking.",
         "design_ref": "DESIGN.md §4 C05",
-        "modules": ["contracts.c05_caches"],
+        "modules": ["contracts.c05_caches", "contracts.c05_full_cache"],
         "runtime": "contracts.rt_c05",
         "assumptions": [
             "arrays are opaque values compared by content; numpy's `!=`/norm inside compare_dict_of_arrays are not modelled",
             "hash_data is an arbitrary (possibly colliding) function of the input data",
         ],
         "not_covered": ["HDF5Cache (h5py)", "multi-process locking", "Discipline.linearize Jacobian-cache protocol"],
+    },
+    "C13": {
+        "level_text": "Proof, for an arbitrary number of tasks and workers, an arbitrary completion order (any permutation of the results in the out-queue) and an "
+                      "arbitrary set of failing tasks, that CallableParallelExecution.execute returns the outputs positionally matched to the inputs, calls every "
+                      "callback exactly once per successful task with the matching (index, output), confines a failure to its own slot, re-raises the first "
+                      "received exception of a listed class and always terminates and joins its workers; proof of the worker loop (_execute_workers: exactly one "
+                      "result per task taken, on the normal and on the exception path) and of _TaskCallables.__call__.",
+        "level_note": "The OS scheduler and the queue implementation are outside of the logic: the queue contract (exactly-once delivery, arbitrary order) is an "
+                      "assumption, under which the order-sensitive sequential code is proved for every delivery order. Consequences for DOE / chains / "
+                      "linearization / derivative approximation are not under contract yet.",
+        "design_ref": "DESIGN.md §4 C13",
+        "modules": ["contracts.c13_parallel"],
+        "assumptions": [
+            "queue contract: every item put in a queue is delivered exactly once, to exactly one getter, in an arbitrary order; every started worker runs "
+            "_execute_workers to completion (fairness/termination of the scheduler)",
+            "user tasks have a deterministic outcome (value or exception) that depends only on the callable and its input, and do not touch the state of "
+            "the caller; process-based workers operate on pickled copies with the same behaviour (C20)",
+            "callbacks return normally; exceptions_to_re_raise only contains exception classes; n_processes >= 1 (PositiveInt in all settings)",
+            "POSIX platform; a process named 'subprocess' is a (daemonic) gemseo worker",
+        ],
+        "not_covered": ["_check_unicity (set cardinality)", "parallel DOE / DiscParallelExecution / DiscParallelLinearization / parallel finite differences write-back",
+                        "shared caches and locks under true concurrency", "pickling of workers and data (C20)"],
+    },
+    "C08": {
+        "level_text": "TBD",
+        "level_note": "see evidence",
+        "modules": ["contracts.c08_dependency"],
+        "assumptions": [],
+        "not_covered": [],
+    },
+    "C09": {
+        "level_text": "TBD",
+        "level_note": "see evidence",
+        "modules": ["contracts.c09_chain_rule"],
+        "assumptions": [],
+        "not_covered": [],
+    },
+    "C15": {
+        "level_text": "Proof (function by function, all inputs, unbounded) on the real source of RequiredNames, Defaults, SimpleGrammar and the "
+                      "BaseGrammar template methods (instantiated with SimpleGrammar's primitives) that every edit preserves the representation "
+                      "invariant (required names and default keys are element names, parts bound to their grammar), changes the abstract view "
+                      "(names->types, required set, defaults) exactly as specified and nothing else, and that SimpleGrammar validation raises "
+                      "exactly when the data violates the current definition. JSON-schema/pydantic grammars are not covered; see level_note.",
+        "level_note": "see evidence (work in progress)",
+        "design_ref": "DESIGN.md §4 C15",
+        "modules": ["contracts.c15_grammars"],
+        "assumptions": [],
+        "not_covered": [],
     },
 }
 
